@@ -221,6 +221,43 @@ func genFc(t *rapid.T, size string) *Case {
 	return c
 }
 
+// tourFcCheckThenAct: directed programs for validate-then-act methods of the wrapper. A tree with two branches
+// (1@0 <- 2@1 <- 3@4 <- 4@5 and 5@2 on 2); one goroutine finalizes the first branch (which prunes the second and
+// everything before 3), another pins a node that this finalization removes or keeps, a third reads. Sequentially
+// either the pin comes first (and a finalization whose trigger lies outside the pinned subtree is refused) or
+// the finalization comes first (and a pruned node cannot be pinned): both succeeding is no sequential order.
+func tourFcCheckThenAct(t *rapid.T) *Case {
+	bal := []uint64{1, 2, 3, 1}
+	b := fcsim.NewB(t, "ok", 0, bal)
+	b.Block(1, 2, 1, 0, 0).Block(2, 3, 4, 1, 1).Block(3, 4, 5, 1, 1).Block(2, 5, 2, 0, 0).Att(0, 4, 5).Att(1, 5, 2).Att(2, 3, 4).Head()
+	fc := b.Case()
+	c := &Case{Comp: "fc", Size: "small", FcCfg: &fc.Cfg, Note: "tour:check-then-act"}
+	for i := range fc.Ops {
+		o := fc.Ops[i]
+		c.Setup = append(c.Setup, Op{K: o.K, Fc: &o})
+	}
+	mk := func(o fcsim.Op) Op { return Op{K: o.K, Fc: &o} }
+	pins := [][2]uint64{{5, 2}, {2, 2}, {2, 1}, {2, 3}, {5, 2}, {3, 4}, {4, 5}, {1, 0}}
+	pin := pins[uni(t, len(pins), "pin")]
+	j, f := fcsim.Cp{R: 3, E: 1}, fcsim.Cp{R: 3, E: 1}
+	upd := mk(fcsim.Op{K: fcsim.KUpd, T: 4, J: &j, F: &f})
+	setPin := mk(fcsim.Op{K: fcsim.KPin, R: int(pin[0]), S: pin[1]})
+	head := mk(fcsim.Op{K: fcsim.KHead})
+	getPin := Op{K: kGetPin, Fc: &fcsim.Op{K: kGetPin}}
+	fin := Op{K: kFinalized, Fc: &fcsim.Op{K: kFinalized}}
+	switch uni(t, 3, "shape") {
+	case 0:
+		c.Threads = [][]Op{{upd, head}, {setPin, getPin}}
+	case 1:
+		c.Threads = [][]Op{{upd}, {setPin, head}, {getPin, fin}}
+	default:
+		c.Threads = [][]Op{{head, upd}, {getPin, setPin, head}}
+	}
+	c.Sched = genSched(t, len(c.Threads))
+	c.Sched.SlowGraph = []int{1, 2, 2, 3, 3}[uni(t, 5, "slow")]
+	return c
+}
+
 func genPk(t *rapid.T, size string) *Case {
 	per := genShape(t, size)
 	c := &Case{Comp: "pubkey", Size: size, Empty: uni(t, 4, "empty") == 0}
@@ -882,6 +919,27 @@ func TestCheck(t *testing.T) {
 	r.S.Extra["seconds_per_search_shard0"] = secs
 	only := os.Getenv("C17_ONLY") // developer aid: e.g. pubkey/small
 	sub := 0
+	if only == "" || only == "fc" || only == "fc/tour" {
+		r.Mandatory("fc/tour:check-then-act")
+		r.Search(t, "fc/tour:check-then-act", 90, r.N(48, 400), func(rt *rapid.T) (any, *report.Failure) {
+			c := tourFcCheckThenAct(rt)
+			for i := 0; i < 6; i++ {
+				r.Inflight(c)
+				f := x.runOnce(c, i == 0)
+				r.ClearInflight()
+				if i == 0 {
+					r.Eval(1)
+					r.Hit("fc/tour:check-then-act")
+				} else {
+					r.Class("repeat-executions")
+				}
+				if f != nil {
+					return c, f
+				}
+			}
+			return c, nil
+		})
+	}
 	for _, comp := range components {
 		for _, size := range []string{"small", "large"} {
 			comp, size := comp, size
